@@ -19,22 +19,39 @@
 (*          cliCert  : "none" | "trusted" | "otherCA" | "expired"          *)
 (*          cliCA    : BOOLEAN  (collector configured with a client CA)    *)
 (*          peerMax  : 11 | 12 | 13  (highest version the harness peer offers) *)
+(*          addr     : "ip" | "host"  (how the exporter is told to reach   *)
+(*                     the collector: 127.0.0.1 or localhost)              *)
+(*          srvChain : "A" | "Bbundle" (collector side: its certificate is *)
+(*                     issued by the client CA's own CA, or by another CA  *)
+(*                     whose certificate is shipped in the ServerCert PEM) *)
 (*          plain    : BOOLEAN  (the harness peer speaks plaintext) ]      *)
 (***************************************************************************)
 EXTENDS Integers, Sequences
 
-SrvCerts == {"trusted", "otherCA", "selfSigned", "wrongSAN", "noSAN"}
+SrvCerts == {"trusted", "otherCA", "selfSigned", "wrongSAN", "noSAN", "hostSAN"}
 SrvNames == {"match", "unset", "mismatch"}
 CliCerts == {"none", "trusted", "otherCA", "expired"}
 
-Chains(c)     == c \in {"trusted", "wrongSAN", "noSAN"}
+Chains(c)     == c \in {"trusted", "wrongSAN", "noSAN", "hostSAN"}
 \* the validity period is judged at the instant of the handshake, with no tolerance either way
 InValidity(cell) == cell.nb <= 0 /\ cell.na >= 0
-\* the trusted certificate carries the DNS name the exporter is configured with AND the IP it dials
-NameMatches(cert, name) == cert = "trusted" /\ name \in {"match", "unset"}
+\* subject alternative names per certificate kind; the name that is verified is the configured ServerName or,
+\* when none is configured, the host the exporter was told to contact - as given, NOT what it resolves to
+\* (cell.addr: "ip" = 127.0.0.1, "host" = localhost)
+SANs(cert) == CASE cert \in {"trusted", "otherCA", "selfSigned"} -> {"collector.verif", "127.0.0.1"}
+                [] cert = "hostSAN"  -> {"localhost"}
+                [] cert = "wrongSAN" -> {"wrong.verif", "10.9.9.9"}
+                [] OTHER             -> {}
+Contacted(cell) == IF "addr" \in DOMAIN cell /\ cell.addr = "host" THEN "localhost" ELSE "127.0.0.1"
+WantedName(cell) == CASE cell.srvName = "match"    -> "collector.verif"
+                      [] cell.srvName = "mismatch" -> "other.verif"
+                      [] OTHER                     -> Contacted(cell)
+NameOK(cell) == WantedName(cell) \in SANs(cell.srvCert)
 
-ServerOK(cell) == Chains(cell.srvCert) /\ InValidity(cell) /\ NameMatches(cell.srvCert, cell.srvName)
+ServerOK(cell) == Chains(cell.srvCert) /\ InValidity(cell) /\ NameOK(cell)
 VersionOK(cell) == cell.peerMax >= 12
+\* client authentication: a certificate issued by the configured client CA - nothing else is a trust anchor,
+\* in particular not the CA certificates shipped in the collector's own ServerCert bundle (cell.srvChain)
 ClientOK(cell) == ~cell.cliCA \/ cell.cliCert = "trusted"
 
 \* Exporter side: is InitExportingProcess allowed / required to succeed ?
@@ -47,7 +64,7 @@ ExporterEstablishes(cell) ==
   ELSE IF cell.proto = "tls" THEN (IF ServerOK(cell) /\ VersionOK(cell) THEN "yes" ELSE "no")
   ELSE IF ~(Chains(cell.srvCert) /\ InValidity(cell)) THEN "no"
   ELSE IF cell.srvName = "unset" THEN "either"
-  ELSE IF NameMatches(cell.srvCert, cell.srvName) THEN "yes" ELSE "no"
+  ELSE IF NameOK(cell) THEN "yes" ELSE "no"
 
 \* Collector side: may a message from this peer be delivered to the consumer ?
 CollectorDelivers(cell) ==
